@@ -154,6 +154,7 @@ def loop_prefix(ctx):
     ex.stub(r'Vec::<.*>::new$', lambda ex, st, c, A: Agg('struct', '~Vec::new', None, []), 'Vec::new (empty-vector marker)')
     ex.stub(r'PolicySet::policies$', lambda ex, st, c, A: Agg('struct', '~policies', None, [A[0]]), 'PolicySet::policies (term)')
     ex.stub(r'as IntoIterator>::into_iter$', lambda ex, st, c, A: A[0], 'IntoIterator::into_iter (identity)')
+    ex.havoc_unknown = True       # code inserted before the loop that the executor does not know is treated as arbitrary (replay decides)
     args = ex.args_havoc(f)
     outs = ex.run(f, args, stop=(head,))
     ctx.absorb(ex)
